@@ -4,6 +4,7 @@
 package bk
 
 import (
+	"bytes"
 	"fmt"
 	"io"
 	"log"
@@ -14,6 +15,7 @@ import (
 	"filippo.io/age"
 	"perkeep.org/pkg/blobserver"
 	"perkeep.org/pkg/blobserver/memory"
+	"perkeep.org/pkg/schema"
 
 	"verif/hs"
 	"verif/vk"
@@ -79,6 +81,10 @@ type Env struct {
 	dir       string
 	clos      []io.Closer
 	n         int
+	// ReadExtra are blobs a Prepop put into the store that the read-side
+	// battery should fetch / range-fetch / stat in addition to the client
+	// alphabet (they are never received or removed by the explored operations).
+	ReadExtra []hs.Blob
 }
 
 func NewEnv() *Env { return &Env{Ld: hs.NewLoader(), Mems: map[string]*hs.Mem{}} }
@@ -277,6 +283,64 @@ func blobpacked(name string, small, large leafFn, memOnly bool) Spec {
 		}
 		return e.Create("blobpacked", mk{"smallBlobs": "/small/", "largeBlobs": "/large/", "metaIndex": e.KVConf("blobpacked-meta"), "keepGoing": true})
 	}}
+}
+
+// PrepackedSpec is blobpacked over two harness stores that already holds one
+// packed file (a 600 KiB file uploaded chunk by chunk, schema blob last, so
+// that blobpacked packs it into a zip in `large` and removes the loose
+// copies): the reference map holds the file's blobs, the client alphabet stays
+// loose next to them. Used by C01 only (the upload costs ~10 ms per instance).
+func PrepackedSpec() Spec {
+	sp := blobpacked("blobpacked-prepacked", leafMem, leafMem, true)
+	build := sp.Build
+	sp.Build = func(e *Env) (blobserver.Storage, error) {
+		sto, err := build(e)
+		if err == nil {
+			e.Ld.Set("/top/", sto)
+		}
+		return sto, err
+	}
+	sp.Prepop = func(e *Env, ref *hs.RefMap, universe []hs.Blob) {
+		top, _ := e.Ld.GetStorage("/top/")
+		// the file's blobs are produced on a trusted harness store first
+		tmp := hs.NewMem("prepack-src")
+		data := make([]byte, 600<<10)
+		x := uint32(12345)
+		for i := range data {
+			x = x*1664525 + 1013904223
+			data[i] = byte(x >> 24)
+		}
+		fileRef, err := schema.WriteFileFromReader(ctxBg, tmp, "prepacked.bin", bytes.NewReader(data))
+		if err != nil {
+			panic(err)
+		}
+		var fileBlob *hs.Blob
+		for i, br := range tmp.Refs() {
+			d, _ := tmp.Get(br)
+			b := hs.Blob{Name: fmt.Sprintf("packed%02d", i), Ref: br, Data: d}
+			if br == fileRef {
+				fileBlob = &b
+				continue
+			}
+			if _, err := blobserver.Receive(ctxBg, top, b.Ref, bytesReader(b.Data)); err != nil {
+				panic(err)
+			}
+			ref.Put(b)
+			if len(e.ReadExtra) < 2 && len(b.Data) > 1000 {
+				e.ReadExtra = append(e.ReadExtra, b) // two packed data chunks join the read battery
+			}
+		}
+		// the file schema blob last: receiving it triggers the packing
+		if _, err := blobserver.Receive(ctxBg, top, fileBlob.Ref, bytesReader(fileBlob.Data)); err != nil {
+			panic(err)
+		}
+		ref.Put(*fileBlob)
+		lg, _ := e.Ld.GetStorage("/large/")
+		if n := lg.(*hs.Mem).Len(); n == 0 {
+			panic("bk.PrepackedSpec: the file was not packed (large store is empty)")
+		}
+	}
+	return sp
 }
 
 func encrypt(name string, blobs, meta leafFn, memOnly bool) Spec {
